@@ -458,6 +458,16 @@ class World:
                     self.utc_offset = ev[2]
             elif kind == "tick":
                 self.fire_timer()
+            elif kind == "tickfail":
+                # a scheduled save during which one file operation (ev[1], e.g. "fsync") fails with EIO
+                from .fsfault import FaultFS
+
+                fs = FaultFS("fail", at_name=ev[1])
+                fs.install()
+                try:
+                    self.fire_timer()
+                finally:
+                    fs.uninstall()
             elif kind == "restart":
                 self.restart()
             elif kind == "start":
